@@ -129,6 +129,8 @@ def make_agent(key, model):
         return Homed('h', model)
     if key == 'i':
         return Core.Agent(7, model)          # an agent numbered rather than named
+    if key == 'n':
+        return Core.Agent('7', model)        # an agent whose NAME is a numeral
     if key == 'y':
         a = Core.Agent('y', model)           # carries a waypoint (a component DERIVED from PositionComponent) before it
         a.add_component(Waypoint(a, model, 40, 40, 40))      # is placed: not its position, and far outside any world
@@ -257,6 +259,8 @@ class Harness:
                 ops += [['move_to_kw', k, kw] for kw in self._menu['partial']]
                 ops.append(['remove', k])
                 ops.append(['remove_obj', k])
+                if k in ('i', 'n'):
+                    ops.append(['remove_twin', k])      # removal naming the number 7 where the agent is called '7', and v.v.
                 if self.rich and self.agents == ['a'] and list(self.dims) in ([3, 2], [3], [1.5, 1, 0]) and \
                         Energy not in w.agents[k].components:
                     ops.append(['gain', k])      # the agent picks up another component while it lives in the world
@@ -391,6 +395,18 @@ class Harness:
                 w.last = (kind, False, w.pos[k])
             else:
                 raise Violation(f'placing an agent that is already in the world again at {p} was accepted')
+        elif kind == 'remove_twin':
+            twin = str(a.id) if not isinstance(a.id, str) else int(a.id)
+            try:
+                w.env.remove_agent(twin)
+            except Exception:      # noqa - refused: nobody of that id lives here
+                pass
+            else:
+                raise Violation(f'remove_agent({twin!r}) was accepted although the resident is called {a.id!r}')
+            if w.env.get_agent(a.id) is not a or self._read(w, k) != before:
+                raise Violation(f'the refused remove_agent({twin!r}) left a trace on the resident called {a.id!r}',
+                                expected=before, observed=self._read(w, k))
+            w.last = (kind, False, w.pos[k])
         elif kind == 'remove_obj':
             # the agent OBJECT is passed where its id is expected: refused without a trace, or - should the library
             # take it for its id - exactly what removal by id does (the agent leaves AND loses its position)
@@ -629,7 +645,7 @@ def run(ctx):
         items += [(('slab', [3, 2, 4], wrap, ['a'], True, 1), 60), (('slab', [2, 0, 3], wrap, ['a'], True, 1), 60),
                   (('flipped', [1.5, 3, 0], wrap, ['a'], True, 0.5), 60)]
     # unusual agents: a nested environment, an agent class with its own __len__, a class-level position component
-    for key in ('e', 'g', 'h', 'i', 'y'):
+    for key in ('e', 'g', 'h', 'i', 'y', 'n'):
         for wrap in (False, True):
             items += [(('grid', [3, 2], wrap, [key], True, 1), 60), (('space', [1.5, 1, 0], wrap, [key], True, 0.5), 60),
                       (('discrete', [3, 0, 3], wrap, [key], True, 1), 60)]
